@@ -284,6 +284,8 @@ func init() {
 		ruleIntegerKeyFlag(c, "C19-R5")
 		ruleEmptyPut(c, "C19-R7")
 		ruleSetNewVal(c, "C19-R7")
+		c.Rule("C19-R8", "NO-OWN-REJECTION: a strategy fails only when the iterator or LMDB failed or the input order is wrong")
+		ruleNoOwnRejection(c, "C19-R8", fnStratUpd, "lmdbenv/strategy.doPut", fnEmptyPut, "lmdbenv/strategy.setNewVal", fnIterUpd+"$callback", "lmdbenv/strategy.iterBoth", "lmdbenv/strategy.Append")
 	})
 }
 
@@ -319,6 +321,8 @@ func init() {
 		c.Rule("C13-R5", "PER-DBI RESUME CURSOR")
 		ruleSweeper(c, "C13-R1", "C13-R3", "C13-R4", "C13-R5")
 		ruleSweeperCutoff(c, "C13-R2")
+		c.Rule("C13-R6", "RESUME-EXACT: a slice resumes with SetRange on the saved (key, value) and steps past it exactly when it landed on that same entry")
+		ruleLimitScannerResume(c, "C13-R6")
 	})
 }
 
@@ -341,6 +345,7 @@ func init() {
 		ruleReceiverListing(c, "C16-R4", "C16-R4")
 		ruleRunOnceExit(c, "C16-R5")
 		ruleCleanDisappeared(c, "C16-R5")
+		ruleWaitSet(c, "C16-R5")
 		ruleLimiter(c, "C16-R6")
 	})
 }
@@ -364,6 +369,7 @@ func init() {
 		ruleMainToShadow(c, "C20-R6", "C20-R6", "C20-R6")
 		ruleShadowToMain(c, "C20-R6", "C20-R6")
 		ruleEmptyPut(c, "C20-R6")
+		ruleShadowCreateMask(c, "C20-R6")
 	})
 
 	register("C11", propMeta{
@@ -400,6 +406,7 @@ func init() {
 		ruleShadowToMain(c, "C11-R7", "C11-R7")
 		ruleSyncedIdBound(c, "C11-R7")
 		ruleRawReadRestored(c, "C11-R8")
+		ruleRawReadWriters(c, "C11-R8")
 	})
 }
 
@@ -496,6 +503,10 @@ func init() {
 		ruleReadAtCursor(c, "C07-R3", "C07-R3")
 		ruleLengthGuarded(c, "C07-R3")
 		ruleNoReceiverReset(c, "C07-R5")
+		c.Rule("C07-R6", "OUTPUT-FRESH: encoder results do not alias package-level storage")
+		ruleEncoderOutputFresh(c, "C07-R6")
+		c.Rule("C07-R7", "WRITE-FITS: every encoder scratch buffer is at least as long as the most the encoder can write into it, for all field lengths")
+		ruleWriteFits(c, "C07-R7")
 	})
 
 	register("C08", propMeta{
